@@ -48,11 +48,13 @@ func VerifH17a() {
 			got = append(got, ss)
 		}
 	}()
+	mode := q.FaultMode
+	q.FaultMode = 0 // the harness's own inspection below must not trigger faults
 	sym.Assert("C17/selector/closed-exactly-once", q.AllClosedOnce())
 	sym.Assert("C17/selector/at-most-one-querier", q.Opened <= 1)
 	faulted := sym.Counter("faults") >= 0 && (q.Opened == 0 || firstErr != nil || panicked)
 	_ = faulted
-	if q.FaultMode == 1 && firstErr != nil {
+	if mode == 1 && firstErr != nil {
 		sym.Assert("C15/selector/error-wraps", errors.Is(firstErr, errVerifStorage))
 	}
 	if firstErr == nil && !panicked {
